@@ -255,6 +255,13 @@ def check_history(built, case, o):
         if name not in starts:
             probs.append(("delivered_member_unreported", "%r was delivered but has no start event" % name))
             break
+    # "every member the extraction processes": also the ones nothing is delivered for - directories and empty files of the selection
+    if "post" in kinds:
+        sel = built.model if case["call"]["op"] == "extractall" else rsess.restrict(built.model, case["call"]["targets"], case["call"]["recursive"])
+        for m in sel:
+            if m.name not in starts:
+                probs.append(("processed_member_unreported", "%s %r is part of the selection but has no start event" % (m.kind, m.name)))
+                break
     want_u = sum(len(v) for v in delivered.values())
     got_u = 0
     for h in hist:
